@@ -525,7 +525,119 @@ def _return_slots(repo):
     return slots
 
 
-@rule('C27.guard', floor=8)
+class _Bind:
+    """Which *version* of the option name an expression denotes / an entry expression is indexed by.
+
+    Tokens: ('param', x) the argument x as passed in; ('alias', id) the name returned by the alias
+    resolution at unpack node id.  Wrong-kind tokens ('entry-as-name', ...), ('name-as-entry', ...),
+    ('alias-entry-only', ...) never compare equal to a good one.  None = not recognised.
+    """
+
+    def __init__(self, g, rd, unpacks, slots):
+        self.g, self.rd, self.slots = g, rd, slots
+        self.unpack = {n: names for n, names, _ in unpacks}
+
+    @staticmethod
+    def def_value(d, var):
+        """Expression assigned to local `var` by definition node d (simple or tuple-to-tuple assignment)."""
+        if d.kind != 'stmt' or not isinstance(d.ast, ast.Assign):
+            return None
+        for t in d.ast.targets:
+            if isinstance(t, ast.Name) and t.id == var:
+                return d.ast.value
+            if isinstance(t, (ast.Tuple, ast.List)) and isinstance(d.ast.value, (ast.Tuple, ast.List)) and \
+                    len(t.elts) == len(d.ast.value.elts):
+                for te, ve in zip(t.elts, d.ast.value.elts):
+                    if isinstance(te, ast.Name) and te.id == var:
+                        return ve
+        return None
+
+    def _walk(self, e, at, as_entry, depth):
+        if depth > 6:
+            return None
+        if as_entry and isinstance(e, ast.Subscript) and astx.path(e.value) == 'self._dict':
+            return self._walk(e.slice, at, False, depth + 1)
+        if not isinstance(e, ast.Name):
+            return None
+        ds = self.rd.defs(at, e.id)
+        if not ds:
+            return None
+        out = set()
+        for d in ds:
+            if d is self.g.entry:
+                out.add(('not-an-entry', e.id) if as_entry else ('param', e.id))
+                continue
+            if d in self.unpack:
+                names = self.unpack[d]
+                if names is None or self.slots is None or len(names) != 2:
+                    return None
+                nm_t, en_t = names[self.slots[0]], names[self.slots[1]]
+                if as_entry:
+                    if en_t == e.id:
+                        out.add(('alias', d.id) if nm_t not in (None, '_') and nm_t != en_t
+                                else ('alias-entry-only', d.id))
+                    elif nm_t == e.id:
+                        out.add(('name-as-entry', d.id))
+                    else:
+                        return None
+                else:
+                    if nm_t == e.id and en_t != e.id:
+                        out.add(('alias', d.id))
+                    elif en_t == e.id:
+                        out.add(('entry-as-name', d.id))
+                    else:
+                        return None
+                continue
+            v = self.def_value(d, e.id)
+            if v is None:
+                return None
+            sub = self._walk(v, d, as_entry, depth + 1)
+            if sub is None:
+                return None
+            out |= sub
+        return frozenset(out)
+
+    def name_tokens(self, e, at):
+        return self._walk(e, at, False, 0)
+
+    def entry_tokens(self, e, at):
+        return self._walk(e, at, True, 0)
+
+    def entry_roots(self, e, at, depth=0):
+        """Nodes where the entry denoted by e is looked up (`self._dict[...]` loads / alias unpacks), or None."""
+        if depth > 6:
+            return None
+        if isinstance(e, ast.Subscript) and astx.path(e.value) == 'self._dict':
+            return {('lookup', at, e)}
+        if not isinstance(e, ast.Name):
+            return None
+        out = set()
+        for d in self.rd.defs(at, e.id):
+            if d in self.unpack:
+                out.add(('unpack', d, None))
+                continue
+            v = self.def_value(d, e.id) if d is not self.g.entry else None
+            sub = self.entry_roots(v, d, depth + 1) if v is not None else None
+            if sub is None:
+                return None
+            out |= sub
+        return out or None
+
+    def describe(self, toks):
+        if toks is None:
+            return 'an unrecognised binding'
+        parts = []
+        for t in sorted(toks, key=str):
+            if t[0] == 'param':
+                parts.append(f'the name passed in (`{t[1]}`)')
+            elif t[0] == 'alias':
+                parts.append('the alias target returned by _handle_deprecation')
+            else:
+                parts.append(t[0].replace('-', ' '))
+        return ' or '.join(parts)
+
+
+@rule('C27.guard', floor=9)
 def guard(repo, out):
     """__setitem__: undeclared/read-only raise; _assert_valid(name, value) dominates the store of that value into that entry; no store on a raising path."""
     nr = _noreturn(repo)
@@ -554,18 +666,25 @@ def guard(repo, out):
     stores = val_stores + [n for n in flag_stores if n not in val_stores]
     unpacks = _alias_unpacks(g, p_name)
     unpack_nodes = {n for n, _, _ in unpacks}
+    slots = _return_slots(repo)
+    B = _Bind(g, rd, unpacks, slots)
 
     def role(e, at):
+        if isinstance(e, ast.Name):
+            toks = B.name_tokens(e, at)
+            if toks:
+                if all(t == ('param', p_name) or t[0] == 'alias' for t in toks):
+                    return 'name'
+                if toks == {('param', p_value)}:
+                    return 'value'
+                if any(t[0] == 'entry-as-name' for t in toks):
+                    return 'entry'
+                return None
         e2, at2 = _deref(rd, at, e)
-        if isinstance(e2, ast.Name):
-            ds = rd.defs(at2, e2.id)
-            if e2.id == p_name and ds and ds <= ({g.entry} | unpack_nodes):
-                return 'name'
-            if e2.id == p_value and ds == {g.entry}:
-                return 'value'
-            return None
         if isinstance(e2, ast.Constant):
             return 'const'
+        if isinstance(e2, ast.Subscript) and astx.path(e2.value) == 'self._dict':
+            return 'entry'
         if isinstance(e2, ast.Subscript) and astx.const_str(e2.slice) is not None:
             return 'entry-field'
         return None
@@ -592,9 +711,9 @@ def guard(repo, out):
                 if (r0, r1) == ('name', 'value'):
                     continue
                 okv = False
-                if r0 == 'value' or r1 in ('name', 'const', 'entry-field'):
+                if r0 in ('value', 'entry', 'const', 'entry-field') or r1 in ('name', 'entry', 'const', 'entry-field'):
                     out.bad(fn, V.ast, f'_assert_valid is not applied to (option name, new value): got '
-                            f'({astx.src(a0)}, {astx.src(a1)})', key='validate-operands')
+                            f'({astx.src(a0)} [{r0 or "?"}], {astx.src(a1)} [{r1 or "?"}])', key='validate-operands')
                 else:
                     out.unsure(fn, V.ast, 'arguments of _assert_valid not recognised')
             if okv:
@@ -641,31 +760,30 @@ def guard(repo, out):
     else:
         out.ok(fn, S.ast, 'no raising statement is reachable after the first store')
 
-    # (4) entry binding: meta = self._dict[name]; undeclared raises
-    bases = set()
+    # (4) entry binding: the written entry is looked up with self._dict[<name>]; undeclared raises
+    store_bases = []      # (store node, base expression)
     for s_ in stores:
-        for b, _ in _key_store(s_.ast, ('val', 'has_been_set')):
-            bases.add(astx.path(b))
-    lookups, okb = [], True
-    if len(bases) != 1 or None in bases or '.' in next(iter(bases)) or '[' in next(iter(bases)):
-        # stores straight into self._dict[name][...]
-        out.unsure(fn, S.ast, f'stores go to {sorted(map(str, bases))}; expected one local entry variable')
-        okb = False
-        base = None
-    else:
-        base = next(iter(bases))
-        for d in set().union(*[rd.defs(s_, base) for s_ in stores]):
-            if d in unpack_nodes:
+        for b_, _ in _key_store(s_.ast, ('val', 'has_been_set')):
+            store_bases.append((s_, b_))
+    roots, okb = set(), True
+    for s_, b_ in store_bases:
+        r = B.entry_roots(b_, s_)
+        if r is None:
+            out.unsure(fn, s_.ast, f'the entry `{astx.src(b_)}` is not bound by a `self._dict[...]` lookup')
+            okb = False
+            break
+        roots |= r
+    base = astx.path(store_bases[0][1]) if store_bases else None
+    lookups = []
+    if okb:
+        for kind, d, e_ in roots:
+            if kind != 'lookup':
                 continue
-            dv = d.ast.value if d.kind == 'stmt' and isinstance(d.ast, ast.Assign) else None
-            if isinstance(dv, ast.Name):
-                dv, d = _deref(rd, d, dv)
-            if isinstance(dv, ast.Subscript) and astx.path(dv.value) == 'self._dict' and role(dv.slice, d) == 'name':
-                lookups.append(d)
-            else:
+            if role(e_.slice, d) != 'name':
                 out.unsure(fn, d.ast if d.kind == 'stmt' else fn.node,
-                           f'`{base}` is not bound by `self._dict[{p_name}]`')
+                           f'entry looked up with `{astx.src(e_.slice)}`, not with the option name')
                 okb = False
+            lookups.append(d)
     if okb:
         if not lookups:
             out.unsure(fn, S.ast, 'no `self._dict[name]` lookup binds the entry')
@@ -722,8 +840,7 @@ def guard(repo, out):
             else:
                 out.ok(fn, tests[0][0].ast, 'read-only raises before validation and store')
 
-    # (6) alias: name and entry are replaced together, in the order the helper returns them
-    slots = _return_slots(repo)
+    # (6) alias: name and entry are replaced together, for the option that was looked up
     if not unpacks:
         fd = meths.get('declare')
         if fd is not None and astx.mentions(fd.node, 'deprecation'):
@@ -737,18 +854,51 @@ def guard(repo, out):
             out.bad(fn, n.ast, 'the (name, entry) pair returned by _handle_deprecation is not unpacked: the '
                     'alias is not followed', key='alias-coherence')
             continue
-        want = [None, None]
-        want[slots[0]], want[slots[1]] = p_name, base
         a0, a1 = astx.arg(call, 0, 'name'), astx.arg(call, 1, 'meta')
-        args_ok = isinstance(a0, ast.Name) and a0.id == p_name and isinstance(a1, ast.Name) and a1.id == base
-        if names == want and args_ok:
+        nt = B.name_tokens(a0, n) if a0 is not None else None
+        et = B.entry_tokens(a1, n) if a1 is not None else None
+        if None in names or '_' in names or names[0] == names[1]:
+            out.bad(fn, n.ast, f'alias resolution must rebind the option name and its entry together; found targets '
+                    f'{names}: validation and store would use different options', key='alias-coherence')
+        elif nt is not None and et is not None and nt == et and role(a0, n) == 'name':
             out.ok(fn, n.ast, 'alias replaces option name and entry together')
-        elif set(names) - {None} <= {p_name, base, '_'} or not args_ok:
-            out.bad(fn, n.ast, f'alias resolution must rebind ({", ".join(map(str, want))}) together from '
-                    f'_handle_deprecation({p_name}, {base}); found targets {names}: validation and store '
-                    'would use different options', key='alias-coherence')
+        elif a0 is not None and a1 is not None and B.entry_tokens(a0, n) is not None and \
+                B.name_tokens(a1, n) is not None:
+            out.bad(fn, n.ast, '_handle_deprecation is called with (entry, name) swapped', key='alias-coherence')
+        elif nt is not None and et is not None:
+            out.bad(fn, n.ast, f'the alias is resolved for {B.describe(nt)} but with the entry of {B.describe(et)}',
+                    key='alias-coherence')
         else:
-            out.unsure(fn, n.ast, 'alias unpack targets not recognised')
+            out.unsure(fn, n.ast, 'arguments of _handle_deprecation not recognised')
+
+    # (8) the declaration validated against is the declaration whose value is written
+    if validators:
+        vinfo = []
+        for V in validators:
+            call = [c for c in V.calls() if astx.callee_attr(c) == '_assert_valid'][0]
+            a0 = astx.arg(call, 0, 'name')
+            vinfo.append((V, B.name_tokens(a0, V) if a0 is not None else None))
+        ok8, first = True, None
+        for s_, b_ in store_bases:
+            et = B.entry_tokens(b_, s_)
+            match = [V for V, nt in vinfo if nt is not None and et is not None and nt == et]
+            w = _npath(g, stops, [g.entry], [s_], avoid=match)
+            if w is None:
+                first = first or s_
+                continue
+            ok8 = False
+            if et is None or any(nt is None for _, nt in vinfo):
+                out.unsure(fn, s_.ast, 'cannot relate the validated option to the written entry')
+            else:
+                seen = ' / '.join(sorted({B.describe(nt) for _, nt in vinfo}))
+                out.bad(fn, s_.ast, f'the value is validated against the declaration of {seen} but written into '
+                        f'the entry of {B.describe(et)}: name/entry are rebound (alias resolution) between '
+                        f'_assert_valid and the store, or a stale name/entry is used, so a value set through a '
+                        f'deprecated alias is not checked against the option that receives it: ' + g.fmt_path(w),
+                        key='validated-entry')
+            break
+        if ok8 and first is not None:
+            out.ok(fn, first.ast, 'every store writes the entry of exactly the option version that was validated')
 
     # (7) _handle_deprecation returns the alias name together with the alias entry
     fh = repo.func(OD, f'{CLS}._handle_deprecation')
@@ -1863,4 +2013,44 @@ selftest(
     Twin('twin-record-directly-before-push', OD, _SETUP,
          _setup('old = self[option]', 'if option not in self._context_cache:', '    self._context_cache[option] = []',
                 'switched.append(option)', 'self._context_cache[option].append(old)', 'self[option] = val')),
+)
+
+
+# ---- __setitem__: the declaration validated against is the declaration that is written (alias resolution)
+_DEP = ("        if meta['deprecation'] is not None:\n"
+        "            name, meta = self._handle_deprecation(name, meta)\n")
+_VAL = "        self._assert_valid(name, value)\n"
+_STORE = "        meta['val'] = value\n        meta['has_been_set'] = True\n"
+_RO_HEAD = ("        if self._read_only:\n"
+            "            self._raise(f\"Tried to set read-only option '{name}'.\", exc_type=KeyError)\n\n")
+
+selftest(
+    'C27',
+    # the independently seeded change: validate first, resolve the alias afterwards
+    Mutant('guard-validate-before-alias', OD, _DEP + "\n" + _VAL, _VAL + "\n" + _DEP, 'C27.guard'),
+    Mutant('guard-stale-entry-written', OD, _RO_HEAD + _DEP, _RO_HEAD + "        target = meta\n" + _DEP, 'C27.guard',
+           also=[(OD, _STORE, "        target['val'] = value\n        target['has_been_set'] = True\n")]),
+    Mutant('guard-flag-on-stale-entry', OD, _RO_HEAD + _DEP, _RO_HEAD + "        target = meta\n" + _DEP, 'C27.guard',
+           also=[(OD, _STORE, "        meta['val'] = value\n        target['has_been_set'] = True\n")]),
+    Mutant('guard-store-under-old-name', OD, _RO_HEAD + _DEP, _RO_HEAD + "        orig = name\n" + _DEP, 'C27.guard',
+           also=[(OD, _STORE, "        self._dict[orig]['val'] = value\n        self._dict[orig]['has_been_set'] = True\n")]),
+    Mutant('guard-validates-original-name', OD, _RO_HEAD + _DEP + "\n" + _VAL,
+           _RO_HEAD + "        orig = name\n" + _DEP + "\n        self._assert_valid(orig, value)\n", 'C27.guard'),
+    Mutant('guard-alias-resolved-again-after-validate', OD, _DEP + "\n" + _VAL, _DEP + "\n" + _VAL + _DEP, 'C27.guard'),
+    Mutant('guard-alias-of-other-entry', OD, _RO_HEAD + _DEP,
+           _RO_HEAD + "        first = meta\n" + _DEP + _DEP.replace('(name, meta)', '(name, first)'), 'C27.guard'),
+    Twin('twin-alias-into-fresh-locals', OD, _SETITEM_TAIL,
+         _RO_HEAD +
+         "        key, entry = name, meta\n"
+         "        if meta['deprecation'] is not None:\n"
+         "            key, entry = self._handle_deprecation(name, meta)\n\n"
+         "        self._assert_valid(key, value)\n\n"
+         "        if entry['set_function'] is not None:\n"
+         "            value = entry['set_function'](entry, value)\n\n"
+         "        entry['val'] = value\n"
+         "        entry['has_been_set'] = True\n"),
+    Twin('twin-store-through-fresh-lookup', OD, _STORE,
+         "        slot = self._dict[name]\n        slot['val'] = value\n        slot['has_been_set'] = True\n"),
+    Twin('twin-entry-copied-after-alias', OD, _STORE,
+         "        target = meta\n        target['val'] = value\n        target['has_been_set'] = True\n"),
 )
